@@ -131,6 +131,9 @@ static void run_case(const std::string &line) {
     if (kv.count("fp1")) n->ExtendFastPacketMessages(plist(kv["fp1"])->data());
     if (kv.count("sf0")) n->SetSingleFrameMessages(plist(kv["sf0"])->data());
     if (kv.count("sf1")) n->ExtendSingleFrameMessages(plist(kv["sf1"])->data());
+    // early=1: the application calls Open() before any of the configuration calls that create the device table (legal: the call order is
+    // not prescribed).  Only used for opened starts (cold=0): the prelude's first poll happens at the same clock value.
+    if (kv.count("early") && kv["early"] == "1" && !cold) n->Open();
     n->SetMode((tNMEA2000::tN2kMode)mode, src);
     for (int i = 0; i < ndev; i++) { char k[16]; snprintf(k, 16, "tx%d", i); if (kv.count(k)) n->ExtendTransmitMessages(plist(kv[k])->data(), i); }
     relocate(n, ndev);
